@@ -24,6 +24,8 @@ func c17Alphabet() []explore.Event {
 		ev("cmd", 1, `COPY 1:2 INBOX`),
 		ev("cmd", 1, `MOVE 1:2 INBOX`),
 		ev("cmd", 0, `COPY 1 INBOX`),
+		ev("cmd", 0, `MOVE 1 src`),
+		ev("cmd", 1, `MOVE 1 INBOX`),
 		ev("cmd", 0, `STORE 1 +FLAGS.SILENT (\Deleted)`),
 		ev("cmd", 0, `EXPUNGE`),
 		ev("cmd", 0, `CREATE a`),
